@@ -326,10 +326,16 @@ def r13_3(ck, proxied):
                     base.attr == 'value'):
                 continue
             par = getattr(n, '_parent', None)
-            construct = A.unparse(par) if isinstance(par, ast.Call) and \
-                par.func is n else A.unparse(n)
+            # the construct is named without the local that holds the
+            # store: <store>.value.<member>
+            root = base.value
+            rtxt = 'self' if A.is_name(root, 'self') else (
+                '<store>' if isinstance(root, ast.Name) else A.unparse(root))
+            construct = '%s.value.%s' % (rtxt, n.attr)
+            if isinstance(par, ast.Call) and par.func is n:
+                construct += '()'
             if isinstance(getattr(n, 'ctx', None), ast.Store):
-                construct = A.unparse(n) + ' = ...'
+                construct += ' = ...'
             n_sites += 1
             key = (f.qual, construct)
             if key in PENDING_EXCEPTIONS:
@@ -583,10 +589,11 @@ def r13_6(ck):
                    reg + ' is no longer passed through '
                    '_parallelize_processes at construction')
     ea = ck.fn('Engine.apply_update', 'core.engine')
+    from .c10 import local_kind
     for kind in ('process', 'step'):
         ok = False
         for d in [x for lst in local_defs(ea.node).values() for x in lst]:
-            if kind in d.name and 'update' in d.name and d.value is not \
+            if local_kind(ea.node, d.name) == kind and d.value is not \
                     None and any(A.call_name(c) == '_parallelize_processes'
                                  for c in A.calls_in(d.value)):
                 ok = True
@@ -696,9 +703,16 @@ def r13_8(ck):
                    len(recvs), len(runs), len(sends)), lp)
     if len(runs) == 1 and len(sends) == 1:
         proc = A.params_of(h.node)[1]
-        ok = A.is_name(A.call_receiver(runs[0]), proc) and [
-            A.unparse(a) for a in runs[0].args] == ['command', 'args',
-                                                   'kwargs']
+        # the three names the received message is unpacked into
+        got = None
+        for s2 in A.walk_no_nested(lp):
+            if isinstance(s2, ast.Assign) and recvs and A.contains(
+                    s2.value, recvs[0]) and isinstance(
+                    s2.targets[0], ast.Tuple):
+                got = [A.unparse(e) for e in s2.targets[0].elts]
+        ok = A.is_name(A.call_receiver(runs[0]), proc) and got is not None \
+            and len(got) == 3 and [
+                A.unparse(a) for a in runs[0].args] == got
         ck.require(ok, 'R13.8', h, runs[0],
                    'the received (command, args, kwargs) is run on the '
                    'wrapped process', None, runs[0])
